@@ -340,7 +340,7 @@ def run(tier, only=None):
         rep.note("L4 not completed: %s" % e)
     # ---- L1 ----
     try:
-        r4 = c04_builtins.run(tier)
+        r4 = c04_builtins.run(tier, library=True)
     except AnalysisBroken as e:
         # L1 re-uses C04's comparison, which needs every copy of every builtin to be expressible; when L4 already reports
         # the edit that makes a copy inexpressible, report that instead of "analysis broken"
